@@ -11,7 +11,7 @@ VARIABLES l, song, cfg, pos, fails, cnt, exec, drift
 vars == <<l, song, cfg, pos, fails, cnt, exec, drift>>
 
 Cfg0 == [loopEn |-> FALSE, loopN |-> -1, tnum |-> 1, tden |-> 1, enabled |-> <<>>, solo |-> -1, chdis |-> {},
-         hooks |-> FALSE, loaded |-> FALSE, len |-> 0, ls |-> -1, le |-> -1]
+         hooks |-> FALSE, loaded |-> FALSE, len |-> 0, ls |-> -1, le |-> -1, rate |-> 44100]
 Pos0 == [t |-> 0, moved |-> FALSE]
 Cnt0 == [steps |-> 0, execs |-> 0, plays |-> 0, events |-> 0, sameTickGroups |-> 0, tempoSongs |-> 0, multiTrack |-> 0,
          loopPlays |-> 0, jumps |-> 0, hookcalls |-> 0, seeks |-> 0, gated |-> 0, windows |-> 0, audio |-> 0, invalidLoops |-> 0,
@@ -134,11 +134,11 @@ WindowFails(ev, sg, c) ==
       g2 == (IF "gran" \in DOMAIN ev THEN ev.gran ELSE 0) \div 2
       its == Gated(sg, sg.its, c.enabled, c.solo)
       \* song time before call i
-      tb(i) == IF i = 1 THEN 0 ELSE calls[i - 1][2]
+      tb(i) == calls[i][6]
       ok(i) == LET es == SelectSeq(calls[i][5], LAMBDA x : x[1] = "e") IN
                \A j \in DOMAIN es :
                  \E q \in DOMAIN its : its[q].ty = es[j][3] /\ its[q].st = es[j][4] /\ its[q].ch = es[j][5] /\ its[q].d = es[j][6]
-                                      /\ its[q].t <= calls[i][2] + g2 + 2 /\ (i = 1 \/ its[q].t > tb(i) + g2 - 2)
+                                      /\ its[q].t <= calls[i][2] + g2 + 2 /\ (tb(i) = 0 \/ its[q].t > tb(i) + g2 - 2)
   IN Lbl(\A i \in DOMAIN calls : ok(i), "late-or-early")
 
 ---------------------------------------------------------------------------
@@ -207,7 +207,7 @@ PlayAfterSeekFails(ev, sg, c, from) ==
      Lbl(\A i \in DOMAIN Dk : Count(Dk, LAMBDA y : y = Dk[i]) <= Count(post \o amb, LAMBDA it : KeyOfItem(it) = Dk[i]), "suffix-extra-or-mistimed") \cup
      Lbl(ev.atend = 1, "not-at-end")
 
-StepInit(ev) == /\ song' = [none |-> TRUE] /\ cfg' = Cfg0 /\ pos' = Pos0 /\ exec' = exec + 1 /\ fails' = fails /\ drift' = drift
+StepInit(ev) == /\ song' = [none |-> TRUE] /\ cfg' = [Cfg0 EXCEPT !.rate = ev.rate] /\ pos' = Pos0 /\ exec' = exec + 1 /\ fails' = fails /\ drift' = drift
                 /\ cnt' = [cnt EXCEPT !.execs = @ + 1]
 \* everything derived from the song is computed once here (TLC does not memoise operator applications)
 MkSong(ev) ==
@@ -275,6 +275,31 @@ StepPlayTicks(ev) ==
                            !.gated = @ + (IF cfg.solo # -1 \/ \E i \in DOMAIN cfg.enabled : ~cfg.enabled[i] THEN 1 ELSE 0),
                            !.windows = @ + (IF "steps" \in DOMAIN ev /\ ev.steps # <<>> THEN 1 ELSE 0),
                            !.refined = @ + (IF doRef /\ mrun.trunc = 0 THEN 1 ELSE 0), !.drifted = @ + (IF dr THEN 1 ELSE 0)]
+\* ---- C07, audio-driven clause: an event takes effect at most one 512-frame period early and never late ------------
+FramesAt(t, rate) == (t \div 100000) * (rate \div 10) + ((t % 100000) * (rate \div 10)) \div 100000
+AudioFails(ev, sg, c, rate) ==
+  LET calls == ev.calls
+      D   == FlattenSeq([i \in DOMAIN calls |-> SelectSeq(calls[i][7], LAMBDA x : x[1] = "e")])
+      its == Gated(sg, sg.its, c.enabled, c.solo)
+      key0(k) == [k EXCEPT ![1] = 0]
+      Dk  == [i \in DOMAIN D |-> key0(KeyOfEntry(D[i]))]
+      Rk  == [i \in DOMAIN its |-> key0(KeyOfItem(its[i]))]
+      \* wall-clock microseconds of song time t under the tempo multiplier num/den
+      wall(t) == (t \div c.tnum) * c.tden + ((t % c.tnum) * c.tden) \div c.tnum
+      okEntry(x) == \E q \in DOMAIN its : Rk[q] = key0(KeyOfEntry(x)) /\ Abs(its[q].t - x[2]) <= 60 * c.tnum
+                        /\ x[7] >= FramesAt(wall(its[q].t), rate) - 512 - 3 /\ x[7] <= FramesAt(wall(its[q].t), rate) + 3
+      lastc == calls[Len(calls)]
+  IN Lbl(\A i \in DOMAIN Dk : Count(Dk, LAMBDA y : y = Dk[i]) = Count(Rk, LAMBDA y : y = Dk[i]) /\ Len(Dk) = Len(Rk), "audio-delivery-count") \cup
+     Lbl(\A i \in DOMAIN D : okEntry(D[i]), "audio-early-or-late") \cup
+     Lbl(ev.atend = 1, "not-at-end") \cup
+     Lbl(ev.maxperiod <= 512, "period-over-512")
+StepPlayAudio(ev) ==
+  LET f == IF ~pos.moved /\ ~cfg.loopEn THEN AudioFails(ev, song, cfg, cfg.rate) ELSE {} IN
+  /\ fails' = AddFails(Tag("C07", f, ev, ""))
+  /\ pos' = [pos EXCEPT !.moved = TRUE]
+  /\ UNCHANGED <<song, cfg, exec, drift>>
+  /\ cnt' = [cnt EXCEPT !.steps = @ + 1, !.audio = @ + 1, !.events = @ + Len(FlattenSeq([i \in DOMAIN ev.calls |-> SelectSeq(ev.calls[i][7], LAMBDA x : x[1] = "e")]))]
+
 StepOther(ev) == UNCHANGED <<song, cfg, pos, exec, fails, drift>> /\ cnt' = [cnt EXCEPT !.steps = @ + 1]
 
 Next ==
@@ -286,6 +311,7 @@ Next ==
           [] ev.e \in {"SetLoop", "SetLoopCount", "SetTempo", "SetHooks", "TrackOpt", "ChanEn"} -> StepCfg(ev)
           [] ev.e = "PlayTicks" -> StepPlayTicks(ev)
           [] ev.e = "Seek" -> StepSeek(ev)
+          [] ev.e = "PlayAudio" -> StepPlayAudio(ev)
           [] ev.e = "End" -> UNCHANGED <<song, cfg, pos, exec, fails, cnt, drift>>
           [] OTHER -> StepOther(ev)
   \/ /\ l = Len(T) + 1 /\ l' = l + 1
